@@ -17,9 +17,9 @@ import (
 func init() {
 	core.Register(&core.Check{
 		ID: "C29", Level: "exploration",
-		Rule: "random charts of accounts (depth <= 4, fixed and variable segments with optional patterns, .self, .metadata defaults; world sometimes missing) x strict/audit enforcement x creates by postings with a known / missing / unknown schema version and accounts drawn from chart-valid and chart-invalid addresses, plus schemas that define transaction templates (create with / without template); oracle: an independent chart matcher written from the documented semantics (fixed segment wins, else variable segment whose pattern matches; leaf or .self = account) and the reference ledger for effects and default metadata. Every create is also submitted, on a twin ledger of the same mode and schema, through the other write paths of the real stack: Controller.BeginTX + write + Commit (what an atomic bulk does), the real bulking.Bulker atomic and non-atomic, and POST /v2/{ledger}/_bulk[?atomic=true] on the real router; the same oracle applies on every path (strict: refused and nothing committed; audit: accepted). Addresses whose classification depends on an undocumented choice (a fixed segment that dead-ends while the variable sibling would accept) are counted as ambiguous and excluded. Distinct = (mode, version kind, validity of each posting account, outcome); non-trivial = the request names a schema version and at least one account is chart-invalid or gets default metadata",
+		Rule:        "random charts of accounts (depth <= 4, fixed and variable segments with optional patterns, .self, .metadata defaults; world sometimes missing) x strict/audit enforcement x creates by postings with a known / missing / unknown schema version and accounts drawn from chart-valid and chart-invalid addresses, plus schemas that define transaction templates (create with / without template); oracle: an independent chart matcher written from the documented semantics (fixed segment wins, else variable segment whose pattern matches; leaf or .self = account) and the reference ledger for effects and default metadata. Every create is also submitted, on a twin ledger of the same mode and schema, through the other write paths of the real stack: Controller.BeginTX + write + Commit (what an atomic bulk does), the real bulking.Bulker atomic and non-atomic, and POST /v2/{ledger}/_bulk[?atomic=true] on the real router; the same oracle applies on every path (strict: refused and nothing committed; audit: accepted). Addresses whose classification depends on an undocumented choice (a fixed segment that dead-ends while the variable sibling would accept) are counted as ambiguous and excluded. Distinct = (mode, version kind, validity of each posting account, outcome); non-trivial = the request names a schema version and at least one account is chart-invalid or gets default metadata",
 		Assumptions: []string{seqAssume, "chart semantics taken from the OpenAPI description and chart_test.go"},
-		Run:  runC29,
+		Run:         runC29,
 	})
 }
 
@@ -141,6 +141,10 @@ func c29ElementJSON(op sim.Op) string {
 		return fmt.Sprintf(`{"action":"CREATE_TRANSACTION","data":{"postings":[%s],"force":%v}}`, strings.Join(ps, ","), op.Force)
 	}
 	vars, _ := json.Marshal(op.Vars)
+	if op.Plain != "" {
+		// a request naming a template AND carrying a script of its own (only the bulk element form can express it)
+		return fmt.Sprintf(`{"action":"CREATE_TRANSACTION","data":{"script":{"template":%q,"plain":%q,"vars":%s}}}`, op.Template, op.Plain, vars)
+	}
 	return fmt.Sprintf(`{"action":"CREATE_TRANSACTION","data":{"script":{"template":%q,"vars":%s}}}`, op.Template, vars)
 }
 
@@ -421,6 +425,23 @@ func runC29(r *core.Run) {
 					pa = pe.C.Snapshot("l1").Digest() // a refused write must leave the twin ledger as it was
 				}
 				twinDigest = pa
+				if usesTemplate && path != "begintx-commit" {
+					// the same template write, but carrying a script of its own: a write that names a template
+					// runs THE TEMPLATE (whatever else it carries) or is refused; the caller's script never runs
+					own := op
+					own.Plain = "vars {\n account $dst\n}\nsend [USD 999] (\n source = @world\n destination = @rogue:payee\n)\nset_account_meta($dst, \"seen\", \"1\")\n"
+					ok2, class2, et2 := c29Submit(pe, path, own)
+					r.Count("template_writes_carrying_their_own_script:"+path, 1)
+					r.Seen("outcomes_template_plus_own_script", fmt.Sprintf("%s strict=%v:%s", path, strict, class2))
+					for _, t := range pe.C.CommittedTransactions("l1") {
+						for _, p := range t.Postings {
+							if p.Destination == "rogue:payee" {
+								c.Violation("C29/write-naming-a-template-executed-the-callers-own-script:"+path, map[string]any{"strict": strict, "element": c29ElementJSON(own), "accepted": ok2, "outcome": class2, "error": et2, "transaction": t})
+							}
+						}
+					}
+					twinDigest = ""
+				}
 				r.Seen("outcomes_"+path, fmt.Sprintf("strict=%v:%s", strict, class))
 				if pend, locks := pe.C.PendingLeftovers(); pend != 0 || locks != 0 {
 					c.Violation("C29/open-transaction-or-lock-after-return:"+path, map[string]any{"op": op, "pending_rows": pend, "locks": locks, "outcome": class})
